@@ -25,6 +25,7 @@ type bufInfo struct {
 	Pages int    `json:"pages"`
 	Kind  string `json:"kind"` // plain, dist, remap, unified, guard
 	Devs  []int  `json:"page_devices"`
+	Freed bool   `json:"freed,omitempty"` // FreeMemory was called (freealloc.go): pages unmapped
 	Adj   []bool `json:"page_phys_adjacent_to_next,omitempty"`
 }
 
@@ -78,6 +79,11 @@ type ctxModel struct {
 	undef    []bool  // per arena byte: contents undefined (page re-homed, not rewritten yet)
 	nUndef   int
 
+	// free / re-allocate in mid-history (freealloc.go)
+	pageVA    []uint64     // virtual address of every arena page
+	segmented bool         // buffers come and go: every op must stay inside one live buffer
+	frameFrom []*frameInfo // per arena page: the freed buffer page that owned this frame before, nil = fresh frame
+
 	queues []*driver.CommandQueue
 	qGPU   []int
 	cos    map[[2]int]*insts.KernelCodeObject
@@ -92,7 +98,9 @@ type ctxModel struct {
 	broken         bool // a violation was reported for this context: shadow and device are out of sync, later comparisons would only cascade
 }
 
-func (m *ctxModel) ptr(off int) driver.Ptr { return driver.Ptr(m.base + uint64(off)) }
+func (m *ctxModel) ptr(off int) driver.Ptr {
+	return driver.Ptr(m.pageVA[off/pageSize] + uint64(off%pageSize))
+}
 
 func (m *ctxModel) bufAt(off int) int {
 	for i, b := range m.bufs {
@@ -210,6 +218,9 @@ func (m *ctxModel) flushWouldBeMissed(off, n int) bool {
 	}
 	truly, drv := false, false
 	for _, b := range m.bufs {
+		if b.Freed {
+			continue
+		}
 		s, e := b.Off, b.Off+b.Size
 		if s < off+n && off < e {
 			truly = true
